@@ -302,7 +302,8 @@ macro CmdStrFlag(f cli.Flag, name string) bool := typeis(f, "*cli.StringFlag") &
 macro CmdBoolFlag(f cli.Flag, name string) bool := typeis(f, "*cli.BoolFlag") && payload(f) != 0 && ptr(cli.BoolFlag, payload(f)).Name == name
 func NewBalanceCommand returns (cmd)
   props C16 C03 C08
-  ensures @name [C16] cmd != nil && cmd.Name == "balance"
+  ensures @name [C16] cmd != nil && cmd.Name == "balance" && len(cmd.Aliases) == 1 && cmd.Aliases[0] == "bal"
+  ensures @short-forms [C16 C03] StrAlias(cmd.Flags[0], "b") && StrAlias(cmd.Flags[1], "e") && BoolAlias(cmd.Flags[3], "c") && StrAlias(cmd.Flags[4], "s")
   ensures @flags [C16 C03] len(cmd.Flags) == 5 && CmdStrFlag(cmd.Flags[0], "begin") && CmdStrFlag(cmd.Flags[1], "end") && CmdBoolFlag(cmd.Flags[2], "collapse-last") && CmdBoolFlag(cmd.Flags[3], "collapse") && CmdStrFlag(cmd.Flags[4], "single-element, s")
 
 @*/
